@@ -20,6 +20,10 @@ is applied, children / cables / ports by position:
   ["rename_def", di, name]       definition.name = name
   ["repoint_all", di, ri]        re-share: every instance of definition di is re-pointed to definition ri
   ["remove_def", di]             remove an unreferenced definition (its children are un-referenced first)
+  ["reorder_ports", di, perm]    definition.ports = permutation (instances keep the pin tables they were built with)
+  ["port_front", di, w, name, k] create_port + w pins, moved to position 0 of the port list; in up to k instances
+                                 the new outer pins are put on new wires with a free pin of the parent
+  ["reorder_pins", di, pi, perm] port.pins = permutation
   ["new_block", li, name, leaf_di, nleaf, nports, ninst, seed]
                                  bring hierarchy (back): a new definition in library li with nports one-bit
                                  ports, nleaf instances of definition leaf_di and cables joining their pins and
@@ -171,6 +175,38 @@ def apply_op(nl, op, fresh):
             k.reference = None
         d.library.remove_definition(d)
         return True
+    if kind == "reorder_ports":
+        ps = list(d.ports)
+        if sorted(op[2]) != list(range(len(ps))):
+            return False
+        d.ports = [ps[i] for i in op[2]]
+        return True
+    if kind == "reorder_pins":
+        port = d.ports[op[2]]
+        qs = list(port.pins)
+        if sorted(op[3]) != list(range(len(qs))):
+            return False
+        port.pins = [qs[i] for i in op[3]]
+        return True
+    if kind == "port_front":
+        port = d.create_port(name=op[3])
+        port.direction = sdn.INOUT
+        port.create_pins(op[2])
+        others = [x for x in d.ports if x is not port]
+        d.ports = [port] + others
+        n = 0
+        for inst in list(d.references):
+            par = inst.parent
+            if par is None or n >= op[4]:
+                continue
+            n += 1
+            free = [q for q in _free_pins(par) if not (isinstance(q, sdn.OuterPin) and q.instance is inst)]
+            for q in port.pins:
+                w = par.create_cable(name=fresh()).create_wire()
+                w.connect_pin(inst.pins[q])
+                if free:
+                    w.connect_pin(free.pop())
+        return True
     if kind == "strip":
         what = op[2]
         if what in ("all", "cables"):
@@ -280,6 +316,37 @@ def gen_ops(rng, nl, tag, ctr=0, rehier=False):
                             rng.randint(1, 3), rng.randint(0, 3), rng.choice([1, 1, 2, 2, 3]), rng.randrange(1 << 30)])
         if rehier and rng.random() < 0.6:
             return pre
+    # reorder the port interface of definitions that are already instantiated (the instances' pin
+    # tables keep their build order), then use the definition again
+    if rng.random() < 0.3:
+        cand = [i for i, d in enumerate(defs) if (len(d.ports) >= 2 or any(len(p.pins) >= 2 for p in d.ports)) and len(d.references)]
+        anyd = [i for i, d in enumerate(defs) if len(d.references)]
+        par = [i for i, d in enumerate(defs) if len(d.children) or d is nl.top_instance.reference]
+        for _ in range(rng.choice([1, 1, 2])):
+            r = rng.random()
+            x = None
+            if r < 0.45 and cand:
+                x = rng.choice(cand)
+                d = defs[x]
+                if len(d.ports) >= 2 and rng.random() < 0.7:
+                    perm = list(range(len(d.ports)))
+                    while perm == list(range(len(d.ports))):
+                        rng.shuffle(perm)
+                    pre.append(["reorder_ports", x, perm])
+                else:
+                    wide = [pi for pi, p in enumerate(d.ports) if len(p.pins) >= 2]
+                    if wide:
+                        pi = rng.choice(wide)
+                        perm = list(range(len(d.ports[pi].pins)))
+                        while perm == list(range(len(d.ports[pi].pins))):
+                            rng.shuffle(perm)
+                        pre.append(["reorder_pins", x, pi, perm])
+            elif anyd:
+                x = rng.choice(anyd)
+                pre.append(["port_front", x, rng.randint(1, 2), "pf%s_%d" % (tag, len(pre)) if rng.random() < 0.7 else None, rng.randint(0, 2)])
+            if x is not None and par and rng.random() < 0.6:
+                for _ in range(2):
+                    pre.append(["add_child", rng.choice(par), x, "rp%s_%d" % (tag, len(pre)), rng.randint(0, 3)])
     ops = _gen_ops(rng, nl, tag, ctr)
     return pre + ops
 
